@@ -206,6 +206,7 @@ static void observe(string& line)
     snprintf(buf, sizeof buf, " dead");
   line += buf;
   if (g_elt) line += g_elt->loop_ != NULL ? " lp=1" : " lp=0";
+#ifdef C04_INSTRUMENTED   // the end of a pool loop's life is seen through the instrumented ~EventLoop only
   if (g_pool)
   {
     // P<i>=q:ev:quit:call:loop:lp  or  P<i>=dead:lp  for every pool thread whose loop has been constructed
@@ -231,6 +232,7 @@ static void observe(string& line)
       line += pb;
     }
   }
+#endif
   if (!strcmp(kind, "tmo") && !strcmp(obj, "poll"))
   {
     // nothing can run and the only way on is the poll time-out: report instead of "sleeping"
